@@ -32,7 +32,8 @@ def scratch():
 def main():
     prop = sys.argv[1]
     idx = sys.argv[2:] or ["1", "2"]
-    src = f"/tmp/seed_{prop}"
+    src = os.environ.get("SRC_PREFIX", "/tmp/seed_") + prop
+    tag = os.environ.get("TAG", "")  # e.g. "r2-" for the second round
     for i in idx:
         patch, demo, notes = (os.path.join(src, f"{n}{i}.{e}") for n, e in (("patch", "diff"), ("demo", "py"), ("notes", "txt")))
         if not (os.path.exists(patch) and os.path.exists(demo)):
@@ -61,14 +62,14 @@ def main():
                 viol = [l for l in outc.splitlines() if l.startswith("VIOLATION")]
                 verdicts[target] = "KILLED" if (rcc == 1 and viol) else ("SURVIVED" if rcc == 0 else f"HARNESS-ERROR rc={rcc}")
                 detail = [l for l in outc.splitlines() if l.strip().startswith("bucket")][:2]
-                print(f"{prop}-{i} vs check {target}: {verdicts[target]}  {' | '.join(d.strip()[:200] for d in detail)}")
-            print(f"{prop}-{i}: baseline={'green' if base_ok else 'RED'} demo clean rc={rc_clean} mutated rc={rc_mut} -> {'CONFIRMED' if confirmed else 'NOT CONFIRMED'}")
+                print(f"{prop}-{tag}{i} vs check {target}: {verdicts[target]}  {' | '.join(d.strip()[:200] for d in detail)}")
+            print(f"{prop}-{tag}{i}: baseline={'green' if base_ok else 'RED'} demo clean rc={rc_clean} mutated rc={rc_mut} -> {'CONFIRMED' if confirmed else 'NOT CONFIRMED'}")
             if not confirmed:
                 print("   clean:", out_clean.strip()[-300:])
                 print("   mutated:", out_mut.strip()[-300:])
                 print("   baseline:", outb.strip()[-200:])
                 continue
-            dest = os.path.join(HERE, "seeded", f"{prop}-{i}")
+            dest = os.path.join(HERE, "seeded", f"{prop}-{tag}{i}")
             os.makedirs(dest, exist_ok=True)
             shutil.copy(patch, os.path.join(dest, "patch.diff"))
             shutil.copy(demo, os.path.join(dest, "demo.py"))
